@@ -45,6 +45,10 @@ checks = {
  "C16": ("B", "exhaustive enumeration of []any inputs x receivers x call forms with a no-panic / error-or-usable oracle",
          "Every input of the bounded family (labels in any case, junk/empty strings, numbers, nil, typed nils, valid/zero/user/empty operators and non-operators in the operator slot, ready-made and zero Stacks/Conditions, empty and nested envelopes, CONDITION rows of 1..6 fields, depth <=3, width <=4/5) x receiver {zero, initialised, full, read-only} x {Marshal(in...), Marshal(in)}: no panic; an error, or an initialised receiver on which String/Unmarshal/IsEqual/Valid/Len/Kind return; recognised labels honoured case-insensitively; unknown leading string gives BASIC with all entries; an initialised receiver grows by exactly one Stack/Condition.",
          "Trusted: the effective-input rule (single-element envelopes are stripped); user operators are total.", "§3 C16"),
+
+ "C10": ("C", "stateless model checking of the real code: cooperative scheduler over lock hooks, exhaustive / preemption-bounded DFS over schedules, sequential-consistency oracle; separate free-running -race pass",
+         "Harness goroutines run one at a time under a scheduler that owns every scheduling point (operation start, lock wanted - enabled only while a model of that mutex says free -, lock released). For each scenario (shared mutex-enabled stack of length 0..3, LIFO/FIFO, capacity none/Len+1; 2x1 over 12 mutators, 2x2, 3x1: every interleaving; 3x2: preemption bound 2) every schedule is executed; the outcome (return values + final content) must be one a sequential execution of the reference list produces, with no panic, no deadlock (no enabled thread), configuration never lost or returned, and every change of content or lock bookkeeping inside lock.held..lock.release (raw dump compared at every hook event). Violating schedules are replayed twice for determinism. The 'no data race' clause cannot be seen by a scheduler at synchronisation granularity, so the same bodies also run free-running in a -race binary; that pass is a labelled non-exhaustive complement.",
+         "Trusted: the lock model (mutex free/held from the hook events), sequential reference list; interleavings at synchronisation granularity only; race pass is sampling and only classifies read/write vs write/write.", "§3 C10"),
 }
 not_built = {f"C{i:02d}" for i in range(1,21)} - set(checks)
 m = {
